@@ -339,6 +339,8 @@ func (l *tcpTransportListener) serve(listener net.Listener) {
 		} else {
 			select {
 			case <-l.done:
+				// The listener was closed before the connection was accepted
+				_ = conn.Close()
 				return
 			case l.connChan <- conn:
 			}
